@@ -59,6 +59,8 @@ Definition rh_update (ds : list rdesc) (c : rcache) (old : option robj) (o : rob
 Definition rbound (ds : list rdesc) (uid : Z) (term : bool) : robj :=
   mkRO uid true term (rd_rsv (rdesc_of ds uid)).
 Definition rpending (uid : Z) : robj := mkRO uid false false 0.
+(* the pod between the PreBind patch and the Bind: annotated, not yet assigned to a node *)
+Definition rannotated (ds : list rdesc) (uid : Z) : robj := mkRO uid false false (rd_rsv (rdesc_of ds uid)).
 Definition robj_of (ds : list rdesc) (life : Z -> Z) (uid : Z) : option robj :=
   let s := life uid in
   if s =? 3 then None
@@ -93,7 +95,10 @@ Definition rlive_step (nr : Z) (ds : list rdesc) (l : rlive) (op : Z * Z) : rliv
 Definition rlive_init (nr : Z) : rlive :=
   mkRL (fold_left rc_rsv (zrange 1 (Z.to_nat nr)) rc_init) (fun _ => 0).
 
-(* the fresh scheduler.  events: 1 Add(pod) 2 Update(pod, pod) 3 Update(pending, pod) 6 Add(reservation id) *)
+(* the fresh scheduler.  events: 1 Add(pod) 2 Update(pod, pod) 3 Update(pending, pod) 6 Add(reservation id)
+   8 the pod was listed while annotated but not yet bound (cut between the PreBind patch and the
+     Bind): Add(annotated, unbound) then Update(annotated unbound -> stored); a plain Add when the
+     stored pod is not bound *)
 Record rfresh := mkRF { rf_c : rcache; rf_seen : Z -> bool }.
 Definition rreplay_step (nr : Z) (ds : list rdesc) (life : Z -> Z) (f : rfresh) (ev : Z * Z) : rfresh :=
   let '(k, id) := ev in
@@ -105,6 +110,11 @@ Definition rreplay_step (nr : Z) (ds : list rdesc) (life : Z -> Z) (f : rfresh) 
          if k =? 1 then mkRF (rh_update ds (rf_c f) None o) (upd1 (rf_seen f) id true)
          else if k =? 2 then mkRF (rh_update ds (rf_c f) (Some o) o) (rf_seen f)
          else if k =? 3 then mkRF (rh_update ds (rf_c f) (Some (rpending id)) o) (rf_seen f)
+         else if k =? 8 then
+           (if ro_assigned o
+            then mkRF (rh_update ds (rh_update ds (rf_c f) None (rannotated ds id)) (Some (rannotated ds id)) o)
+                      (upd1 (rf_seen f) id true)
+            else mkRF (rh_update ds (rf_c f) None o) (upd1 (rf_seen f) id true))
          else f
        end.
 Definition rcompletion (nr : Z) (ds : list rdesc) (f : rfresh) : list (Z * Z) :=
